@@ -185,6 +185,16 @@ def contains(I, item, coll):
     if isinstance(coll, Sym):
         k = I.kind(coll)
         if k == "str":
+            if isinstance(item, str) and item:
+                # decided at the regular-language level when the languages of the text's pieces are recorded
+                from .regex import subject_language, regex_empty, ANYCHAR
+                lang = subject_language(I, get_s(coll.term))
+                if lang is not None:
+                    has = z3.Concat(z3.Star(ANYCHAR), z3.Re(z3.StringVal(item)), z3.Star(ANYCHAR))
+                    if regex_empty(z3.Intersect(lang, has)):
+                        return False
+                    if regex_empty(z3.Intersect(lang, z3.Complement(has))):
+                        return True
             return S(z3.Contains(get_s(coll.term), I.as_str(item)))
         raise OutOfReach("`in` on symbolic %s" % k)
     if isinstance(coll, SDict):
